@@ -428,7 +428,9 @@ func execStream(body json.RawMessage) *kernel.Result {
 	case "R":
 		// the production client of the pausable parser: the REPL reader delivers the text line by line and
 		// loops on more-input; the expressions it hands out, concatenated, must be those of the whole text
-		text := sc.Text
+		// (the line reader hands lines over without their line end and the REPL puts a newline back: a carriage
+		// return at a line end does not survive that, which is the terminal's convention, not the parser's doing)
+		text := strings.ReplaceAll(sc.Text, "\r", "")
 		if !strings.HasSuffix(text, "\n") {
 			text += "\n"
 		}
@@ -511,7 +513,7 @@ func execStream(body json.RawMessage) *kernel.Result {
 					fail("C13.M-more-input", "unfinished:"+why, "prefix %q is unfinished (%s) but the parser answered %s instead of asking for more input", pre, why, got)
 					return res
 				}
-			} else if got.Kind == "more" && !st.TrailOp && !st.InRune {
+			} else if got.Kind == "more" && !st.TrailOp && !st.InRune && !st.PendingPre {
 				fail("C13.M-more-input", "finished", "prefix %q is complete but the parser asked for more input", pre)
 				return res
 			}
